@@ -57,6 +57,24 @@ func init() {
 					}
 				}
 			}
+			// every other message of the emulator that carries a user location: all PLMN identities in them
+			more := []string{}
+			if b2, err := tglib.GetUplinkNASTransport(5, 6, reg); err == nil {
+				if p2, err := ngap.Decoder(b2); err == nil {
+					more = append(more, allPlmns(p2)...)
+				}
+			}
+			if b2, err := tglib.GetUEContextReleaseComplete(5, 6, nil); err == nil {
+				if p2, err := ngap.Decoder(b2); err == nil {
+					more = append(more, allPlmns(p2)...)
+				}
+			}
+			if b2, err := tglib.GetUEContextReleaseRequest(5, 6, []int64{1}); err == nil {
+				if p2, err := ngap.Decoder(b2); err == nil {
+					more = append(more, allPlmns(p2)...)
+				}
+			}
+			out["more_plmns"] = more
 			b, err = tglib.GetInitialUEMessage(1, reg, "")
 			out["initialue_err"] = errs(err)
 			if err == nil {
